@@ -13,6 +13,24 @@ BANDS = {
     0: {4: (3e-3, 1.2e-1), 6: (9e-4, 4e-2), 8: (4e-4, 1.5e-2), 12: (6e-5, 3.5e-3)},
     1: {3: (3.5e-3, 1e-1), 4: (8e-4, 4e-2), 5: (9e-5, 6e-3), 6: (1.4e-5, 1.5e-3), 7: (2e-6, 3.5e-4), 8: (3.5e-7, 7e-5)},
 }
+# per-height bands for the plain double-precision scenarios: 4 x the maximum over 10 random scenarios per (kernel, order, height)
+# measured on the pinned tree by tools/calibrate_num.py (heights 3..6; height 7 uses 2 x the height-6 entry)
+BANDS_H = {
+    0: {
+        4: {3: (0.0034, 0.026), 4: (0.0032, 0.032), 5: (0.0024, 0.045), 6: (0.0024, 0.083)},
+        6: {3: (0.00091, 0.011), 4: (0.0008, 0.015), 5: (0.00088, 0.022), 6: (0.00094, 0.046)},
+        8: {3: (0.00054, 0.0066), 4: (0.0004, 0.0066), 5: (0.00027, 0.0093), 6: (0.00026, 0.016)},
+        12: {3: (6.1e-05, 0.0011), 4: (8.2e-05, 0.0019), 5: (0.00011, 0.0032), 6: (8.3e-05, 0.015)},
+    },
+    1: {
+        3: {3: (0.0037, 0.024), 4: (0.0034, 0.042), 5: (0.0032, 0.037), 6: (0.0032, 0.083)},
+        4: {3: (0.0012, 0.01), 4: (0.00099, 0.013), 5: (0.0008, 0.013), 6: (0.00091, 0.022)},
+        5: {3: (0.00011, 0.0021), 4: (0.0001, 0.0021), 5: (8.6e-05, 0.0035), 6: (6.1e-05, 0.004)},
+        6: {3: (1.9e-05, 0.0003), 4: (1.4e-05, 0.00035), 5: (9.3e-06, 0.00062), 6: (1e-05, 0.0011)},
+        7: {3: (1.9e-06, 0.0001), 4: (2.4e-06, 0.00014), 5: (1.6e-06, 0.00018), 6: (1.6e-06, 0.00043)},
+        8: {3: (6.6e-07, 2.2e-05), 4: (5.1e-07, 3.2e-05), 5: (5e-07, 4.6e-05), 6: (4.2e-07, 0.00015)},
+    },
+}
 FLOOR = {"double": (1e-13, 1e-12), "float": (2e-5, 2e-4)}       # direct sum only (heights <= 2)
 # rounding floor of the far field in the working precision (deep trees, high orders: the truncation error is below it);
 # measured on the pinned tree in float: potential <= 4.1e-6, force <= 1.6e-3 at heights 6..7, orders 7..8 (x5)
@@ -148,6 +166,10 @@ def run_num(pid, kernel, kname, tier, seed, extra=None, extra_props=()):
                     if not where or int(r["count"]) != s["N"]: continue      # special positions: still check what is finite (NaN never raises the maxima)
                 ep, ef = float(r["epot"]), float(r["efrc"])
                 lim_p, lim_f = (fp, ff) if (s["H"] <= 2 and "k" not in s) else (bp, bf)
+                if real == "double" and s["H"] >= 3 and not any(x in s for x in ("place", "k", "rel", "cons")) and param in BANDS_H[kernel]:
+                    hb = BANDS_H[kernel][param]
+                    hp, hf = hb.get(s["H"], tuple(2 * x for x in hb[6]))
+                    lim_p, lim_f = min(lim_p, hp), min(lim_f, hf)
                 if "place" in s and s["H"] > 2:
                     # particles on cell faces / edges sit at the worst-case geometry of the expansions (|x - centre| maximal):
                     # the bands, calibrated on random positions, are widened by 4 for these scenarios
